@@ -130,13 +130,13 @@ type phaseSnap struct {
 
 type flatRun struct {
 	phases []phaseSnap
-	err   error
-	panic string
-	stack string
-	out   []byte
-	an    *analysis.Spec
-	sw    *spec.Swagger
-	loads int
+	err    error
+	panic  string
+	stack  string
+	out    []byte
+	an     *analysis.Spec
+	sw     *spec.Swagger
+	loads  int
 }
 
 // flattenOnce loads root.json from dir and flattens it. failAt > 0 makes the failAt-th document load fail.
